@@ -554,6 +554,52 @@ pub fn run_reader_dev(dev: &Dev, ops: &[Value], ctx: &ReadCtx, t: &mut TraceOut)
                     t.ev(json!({"ev":"r_blob","tag":tag,"off":limbs_u64(off),"len":limbs_u64(len),"res":res}));
                 }
             }
+            "hints" => {
+                // Iterator::size_hint of both iterators: before, after one step, after the last step
+                let pcs = rd.pointclouds();
+                let i = op["pc"].as_u64().unwrap_or(0) as usize;
+                if i >= pcs.len() {
+                    continue;
+                }
+                let r = catch(|| -> std::result::Result<Value, ()> {
+                    let mut out = Vec::new();
+                    {
+                        let mut it = rd.pointcloud_raw(&pcs[i]).map_err(|_| ())?;
+                        let mut n = 0u64;
+                        let h = it.size_hint();
+                        out.push(json!(["raw", limbs_u64(n), limbs_u64(h.0 as u64), opt(&h.1, |x| limbs_u64(*x as u64))]));
+                        while let Some(p) = it.next() {
+                            p.map_err(|_| ())?;
+                            n += 1;
+                            if n == 1 || n == pcs[i].records {
+                                let h = it.size_hint();
+                                out.push(json!(["raw", limbs_u64(n), limbs_u64(h.0 as u64), opt(&h.1, |x| limbs_u64(*x as u64))]));
+                            }
+                        }
+                    }
+                    {
+                        let mut it = rd.pointcloud_simple(&pcs[i]).map_err(|_| ())?;
+                        let mut n = 0u64;
+                        let h = it.size_hint();
+                        out.push(json!(["simple", limbs_u64(n), limbs_u64(h.0 as u64), opt(&h.1, |x| limbs_u64(*x as u64))]));
+                        while let Some(p) = it.next() {
+                            p.map_err(|_| ())?;
+                            n += 1;
+                            if n == 1 || n == pcs[i].records {
+                                let h = it.size_hint();
+                                out.push(json!(["simple", limbs_u64(n), limbs_u64(h.0 as u64), opt(&h.1, |x| limbs_u64(*x as u64))]));
+                            }
+                        }
+                    }
+                    Ok(Value::Array(out))
+                });
+                let res = match r {
+                    Ok(Ok(v)) => ok(v),
+                    Ok(Err(())) => err(),
+                    Err(m) => json!({"panic":m}),
+                };
+                t.ev(json!({"ev":"r_hints","pc":i + 1,"records":limbs_u64(pcs[i].records),"res":res}));
+            }
             "simple_count" => {
                 let pcs = rd.pointclouds();
                 let i = op["pc"].as_u64().unwrap_or(0) as usize;
@@ -652,6 +698,7 @@ pub fn run_programs(progs: &str, out: &str) -> std::io::Result<()> {
                 let n = prog["steps"].as_array().unwrap().iter().filter(|s| s["op"] == "pc").count();
                 for k in 0..n {
                     ops2.push(json!({"op":"raw","pc":k}));
+                    ops2.push(json!({"op":"hints","pc":k}));
                 }
             } else {
                 ops2.push(o);
